@@ -7,3 +7,4 @@ pub(crate) fn fake_guard<'a>(zalsa: &'a Zalsa, zalsa_local: &'a ZalsaLocal, ingr
     let shard: &'static SyncShard = Box::leak(Box::new(SyncShard { syncs: Mutex::default(), ingredient }));
     ClaimGuard { key_index, zalsa, shard, mode: ReleaseMode::Default, zalsa_local }
 }
+
